@@ -71,7 +71,8 @@ def case_st(draw):
     if two and draw(st.integers(0, 2)) == 0:
         two = "blank"            # the second side of the interleaved image carries no catalogue at all
     return {"surface": s, "two_sided": two, "seedB": draw(st.integers(0, 10 ** 6)),
-            "fake": draw(st.sampled_from(["bad-total", "bad-total-small", "no-volumes", "track-beyond", "spt-ok-only"]))}
+            "fake": draw(st.sampled_from(["bad-total", "bad-total-small", "no-volumes", "track-beyond", "spt-ok-only",
+                                           "catalogue16", "catalogue16"]))}
 
 
 def imitation(case, imgA):
@@ -83,7 +84,8 @@ def imitation(case, imgA):
     filler = disc.expand({"kind": "rand", "seed": case["seedB"]}, len(img))
     fake16 = bytearray(256)
     kind = case["fake"]
-    tot = {"bad-total": 0x1234, "bad-total-small": 400, "no-volumes": 720, "track-beyond": 1440, "spt-ok-only": 0}[kind]
+    tot = {"bad-total": 0x1234, "bad-total-small": 400, "no-volumes": 720, "track-beyond": 1440, "spt-ok-only": 0,
+           "catalogue16": 0}[kind]
     fake16[0] = 0x20
     fake16[1], fake16[2], fake16[3], fake16[4] = (tot >> 8) & 0xFF, tot & 0xFF, 18, 80
     if kind in ("bad-total", "bad-total-small", "spt-ok-only"):
@@ -104,6 +106,10 @@ def imitation(case, imgA):
                 if sct == 2:
                     new = b"\xAA" * 8 + b"FAKE   $" * 31
                     placed.append("aa@2")
+                elif sct in (16, 17) and kind == "catalogue16":
+                    # what the second side's catalogue of a 16-sectors-per-track interleaved image would look like
+                    new = catlike0 if sct == 16 else catlike1
+                    placed.append("catalogue@%d" % sct)
                 elif sct == 16:
                     new = bytes(fake16)
                     placed.append("opus16:" + kind)
@@ -240,7 +246,12 @@ class C13(CheckBase):
                 outs.append(res)
         if len(outs) == 2 and outs[0] != outs[1]:
             diff = [k for k in outs[0] if outs[0][k] != outs[1][k]]
-            v.fail("C13/bodies-change-identification",
+            key = "C13/bodies-change-identification"
+            if case["two_sided"] == "blank" and dd and "catalogue@16" in placed and "catalogue@17" in placed:
+                # known finding: with a blank second side, catalogue-like file data in sectors 16-17 of side 0 is
+                # taken for the second side's catalogue of a 16-sectors-per-track layout
+                key = "C13/side0-body-at-16-taken-for-side1-catalogue"
+            v.fail(key,
                    "output of %s changed when only file bodies changed (%s)" % (diff, placed[:4]),
                    {"A": {k: outs[0][k] for k in diff}, "B": {k: outs[1][k] for k in diff}})
         return v
